@@ -1,8 +1,13 @@
 //! C02 — the scanner yields exactly the positions scoring at or above the threshold.
 //!
-//! case:   c02 <dev|release> <arm> <block> <threshold f32 bits> <M> <5·M f32 bit patterns, row-major> <W> <L> <L symbols>
+//! case:   c02 <dev|release> <arm> <block> <threshold f32 bits> <M> <5·M f32 bit patterns, row-major> <W> <L> <L symbols> [H <h>…]
 //!         arm: generic | sse2 | avx2   (the arm `Pipeline::dispatch()` is forced to select in `Scanner::new`)
 //!         the sequence is striped (32 columns) and given W wrap rows (`configure` gives W = M−1)
+//!         H … : what happened to the SAME striped sequence object before that final `configure_wrap(W)` (one
+//!         sequence shared by several motifs), in order:  w<n> = `configure_wrap(n)`;  c<n> = `configure(&pssm')`
+//!         with pssm' the first n rows of the matrix (n = 0: the empty matrix);  s<n> = `configure(&pssm')` and
+//!         a scanner over pssm' run to exhaustion (same arm, block size and threshold; its hits are judged by the
+//!         oracle with the same rule).  Short-then-long and wide-then-narrow histories.
 //! answer: hits <n> <position:score-bits …, sorted by position>      or      panic
 //!
 //! oracle (from the property text): with score(i) = the f32 sum of the matrix entries of window i in
@@ -16,6 +21,12 @@ use lightmotif::abc::Dna;
 use lightmotif::pli::verif;
 use lightmotif::scan::Hit;
 use lightmotif::scan::Scanner;
+use lightmotif::num::U32;
+use lightmotif::pli::Pipeline;
+use lightmotif::pli::Score;
+use lightmotif::pwm::DiscreteMatrix;
+use lightmotif::scores::StripedScores;
+use lightmotif::seq::StripedSequence;
 
 pub struct Case {
     pub arm: String,
@@ -26,6 +37,8 @@ pub struct Case {
     pub vals: Vec<f32>,
     pub w: usize,
     pub syms: Vec<usize>,
+    /// configure history of the sequence object before the final `configure_wrap(w)`: (kind, n)
+    pub hist: Vec<(char, usize)>,
 }
 
 /// parse `<arm> <block> <thr> [<k>] <M> <vals> <W> <L> <syms>` starting at token 2
@@ -48,7 +61,84 @@ pub fn parse(t: &[&str], with_k: bool) -> Case {
     let l: usize = t[p + 1].parse().unwrap();
     p += 2;
     let syms: Vec<usize> = t[p..p + l].iter().map(|x| x.parse().unwrap()).collect();
-    Case { arm, block, thr, k, m, vals, w, syms }
+    p += l;
+    let mut hist = Vec::new();
+    if t.get(p) == Some(&"H") {
+        for h in &t[p + 1..] {
+            hist.push((h.chars().next().unwrap(), h[1..].parse().unwrap()));
+        }
+    }
+    Case { arm, block, thr, k, m, vals, w, syms, hist }
+}
+
+impl Case {
+    /// the wrap rows the sequence ends up with: `configure_wrap` never shrinks
+    pub fn wrap(&self) -> usize {
+        self.hist.iter().map(|&(k, n)| if k == 'w' { n } else { n.saturating_sub(1) }).fold(self.w, usize::max)
+    }
+    /// the sub-case of a history scan: the first n rows of the matrix
+    fn prefix(&self, n: usize, wrap: usize) -> Case {
+        Case { arm: self.arm.clone(), block: self.block, thr: self.thr, k: 0, m: n, vals: self.vals[..5 * n].to_vec(), w: wrap, syms: self.syms.clone(), hist: vec![] }
+    }
+}
+
+/// a score buffer that was used before, for another sequence (a reversed prefix) and the same motif
+pub fn used_buffer(c: &Case) -> StripedScores<f32, U32> {
+    let n = c.syms.len().min(40 + c.syms.len() % 64);
+    let other: Vec<usize> = c.syms[..n].iter().rev().cloned().collect();
+    let vals = c.vals.clone();
+    let m = c.m;
+    let r = guarded(move || {
+        let pssm = build_pssm::<Dna>(m, &vals);
+        let mut st = build_seq::<Dna>(&other, 0);
+        st.configure(&pssm);
+        let mut buf = StripedScores::<f32, U32>::default();
+        Pipeline::<Dna, _>::generic().score_into(&pssm, &st, &mut buf);
+        buf
+    });
+    r.unwrap_or_else(|_| StripedScores::empty())
+}
+
+/// stripe, replay the configure history on the one sequence object (scans of the history are judged
+/// by the oracle: first failure in `Err`), then `configure_wrap(W)`
+pub fn build_seq_hist(c: &Case) -> (StripedSequence<Dna, U32>, Result<(), String>) {
+    let mut st = build_seq::<Dna>(&c.syms, 0);
+    let mut verdict = Ok(());
+    let mut wrap = 0;
+    for &(kind, n) in &c.hist {
+        if kind == 'w' {
+            st.configure_wrap(n);
+            wrap = wrap.max(n);
+            continue;
+        }
+        let sub = c.prefix(n, wrap.max(n.saturating_sub(1)));
+        let pssm = build_pssm::<Dna>(n, &sub.vals);
+        st.configure(&pssm);
+        wrap = sub.w;
+        if kind == 's' && n >= 1 {
+            assert!(verif::force_backend(&c.arm));
+            let r = guarded(|| {
+                let mut sc = Scanner::new(&pssm, &st);
+                sc.threshold(c.thr);
+                sc.block_size(c.block);
+                sc.collect::<Vec<Hit>>()
+            });
+            verif::clear();
+            if verdict.is_ok() && in_contract(&sub) {
+                verdict = match r {
+                    Err(()) => Err(format!("history scan with the first {} rows panics", n)),
+                    Ok(h) => {
+                        let mut got: Vec<(usize, u32)> = h.iter().map(|h| (h.position(), h.score().to_bits())).collect();
+                        got.sort();
+                        let exp: Vec<(usize, u32)> = qualifying(&sub).iter().map(|(p, s)| (*p, s.to_bits())).collect();
+                        if got == exp { Ok(()) } else { Err(format!("history scan with the first {} rows: {} hits expected, {} yielded", n, exp.len(), got.len())) }
+                    }
+                };
+            }
+        }
+    }
+    st.configure_wrap(c.w);
+    (st, verdict)
 }
 
 pub fn fmt_hits(h: &[(usize, u32)]) -> String {
@@ -73,7 +163,7 @@ pub fn qualifying(c: &Case) -> Vec<(usize, f32)> {
 }
 
 pub fn in_contract(c: &Case) -> bool {
-    c.m >= 1 && c.w + 1 >= c.m && c.block >= 1 && !c.vals.iter().any(|x| x.is_nan()) && !c.thr.is_nan()
+    c.m >= 1 && c.wrap() + 1 >= c.m && c.block >= 1 && !c.vals.iter().any(|x| x.is_nan()) && !c.thr.is_nan()
 }
 
 pub fn exec(line: &str) -> (String, Option<Result<(), String>>, bool) {
@@ -81,15 +171,44 @@ pub fn exec(line: &str) -> (String, Option<Result<(), String>>, bool) {
     assert_eq!(t[0], "c02");
     let c = parse(&t, false);
     let pssm = build_pssm::<Dna>(c.m, &c.vals);
-    let st = build_seq::<Dna>(&c.syms, c.w);
+    let (st, hist_verdict) = build_seq_hist(&c);
+    // a share of the scanners gets a caller-provided score buffer (`Scanner::scores`) that was
+    // used for another sequence before: the hits are judged by the same rule / the same model
+    let sel = (c.syms.len() + c.m + c.block) % 8;
+    let mut used = used_buffer(&c);
     assert!(verif::force_backend(&c.arm));
-    let r = guarded(|| {
-        let mut sc = Scanner::new(&pssm, &st);
-        sc.threshold(c.thr);
-        sc.block_size(c.block);
-        sc.collect::<Vec<Hit>>()
-    });
+    let scan = |buf: Option<&mut StripedScores<f32, U32>>| {
+        guarded(|| {
+            let mut sc = Scanner::new(&pssm, &st);
+            if let Some(b) = buf {
+                sc.scores(b);
+            }
+            sc.threshold(c.thr);
+            sc.block_size(c.block);
+            sc.collect::<Vec<Hit>>()
+        })
+    };
+    let r = if sel < 3 { scan(Some(&mut used)) } else { scan(None) };
+    // … and now and then both kinds are run: identical hits, in the same order
+    let mut hist_verdict = hist_verdict;
+    if sel == 0 {
+        let plain = scan(None);
+        let key = |x: &Result<Vec<Hit>, ()>| x.as_ref().map(|h| h.iter().map(|h| (h.position(), h.score().to_bits())).collect::<Vec<_>>()).map_err(|_| ());
+        if key(&plain) != key(&r) && hist_verdict.is_ok() {
+            hist_verdict = Err("a scanner with a caller-provided score buffer (Scanner::scores) does not yield what a plain scanner yields".into());
+        }
+    }
     verif::clear();
+    // `DiscreteMatrix::from(&pssm)` / `from(pssm.clone())` are `pssm.to_discrete()`
+    if sel % 4 == 1 && hist_verdict.is_ok() {
+        let show = |x: Result<DiscreteMatrix<Dna>, ()>| x.map(|d| format!("{:?}", d)).unwrap_or_else(|_| "panic".into());
+        let a = show(guarded(|| pssm.to_discrete()));
+        let b = show(guarded(|| DiscreteMatrix::from(&pssm)));
+        let d = show(guarded(|| DiscreteMatrix::from(pssm.clone())));
+        if a != b || a != d {
+            hist_verdict = Err("DiscreteMatrix::from(&pssm) / from(pssm) differ from pssm.to_discrete()".into());
+        }
+    }
     let answer = match &r {
         Err(()) => "panic".to_string(),
         Ok(h) => fmt_hits(&h.iter().map(|h| (h.position(), h.score().to_bits())).collect::<Vec<_>>()),
@@ -102,7 +221,7 @@ pub fn exec(line: &str) -> (String, Option<Result<(), String>>, bool) {
     let npos = (c.syms.len() + 1).saturating_sub(c.m);
     let nontrivial = !want.is_empty() && want.len() < npos && rows > c.block;
     let verdict = match &r {
-        Err(()) => Err(format!("the scanner panics (L={} M={} rows={} wrap={} block={} threshold={})", c.syms.len(), c.m, rows, c.w, c.block, c.thr)),
+        Err(()) => Err(format!("the scanner panics (L={} M={} rows={} wrap={} block={} threshold={})", c.syms.len(), c.m, rows, c.wrap(), c.block, c.thr)),
         Ok(h) => {
             let mut got: Vec<(usize, u32)> = h.iter().map(|h| (h.position(), h.score().to_bits())).collect();
             got.sort();
@@ -124,7 +243,44 @@ pub fn exec(line: &str) -> (String, Option<Result<(), String>>, bool) {
             }
         }
     };
-    (answer, Some(verdict), nontrivial)
+    (answer, Some(verdict.and(hist_verdict)), nontrivial)
+}
+
+/// a configure history for a sequence that ends up scanned with a motif of width m and
+/// `configure_wrap(w)`: mostly short-then-long (narrower motifs / fewer wrap rows first, growing),
+/// also wide-then-narrow and mixed
+pub fn gen_history(rng: &mut Rng, m: usize, w: usize) -> String {
+    let mut h: Vec<String> = Vec::new();
+    let steps = rng.range(1, 3);
+    let narrow = |rng: &mut Rng, h: &mut Vec<String>, lo: usize| -> usize {
+        // a motif narrower than m (prefix rows), or fewer wrap rows than w; returns the width reached
+        if m >= 2 && rng.chance(2, 3) {
+            let n = rng.range(lo.min(m - 1), m - 1);
+            h.push(format!("{}{}", if rng.chance(1, 2) { "s" } else { "c" }, n));
+            n
+        } else {
+            let n = rng.range(0, w.max(1) - if w >= 1 { 1 } else { 0 });
+            h.push(format!("w{}", n));
+            n + 1
+        }
+    };
+    match rng.below(6) {
+        // wide then narrow: more wrap rows than the final call asks for
+        0 => h.push(format!("w{}", w + rng.range(1, 6))),
+        // mixed: wide, then narrow (a no-op), then the final one
+        1 => {
+            h.push(format!("w{}", w + rng.range(1, 3)));
+            narrow(rng, &mut h, 0);
+        }
+        // short then long, one to three growing steps
+        _ => {
+            let mut lo = 0;
+            for _ in 0..steps {
+                lo = narrow(rng, &mut h, lo);
+            }
+        }
+    }
+    format!(" H {}", h.join(" "))
 }
 
 /// thresholds: below / at the minimum, above / at the maximum, attained scores, in between
@@ -197,6 +353,7 @@ pub fn gen_block_len(rng: &mut Rng, m: usize, big: usize) -> (usize, usize) {
 
 pub fn generate(cfg: &Cfg) -> Vec<String> {
     let mut rng = Rng::new(cfg.seed ^ 0xC02);
+    let mut hrng = Rng::new(cfg.seed ^ 0xC02_0100);
     let mut cases = Vec::new();
     let prof = profile();
     let arms = ["generic", "sse2", "avx2"];
@@ -218,7 +375,10 @@ pub fn generate(cfg: &Cfg) -> Vec<String> {
             1 if m > 1 => rng.range(0, m - 2),
             _ => m - 1,
         };
-        cases.push(format!("c02 {} {} {} {} {} {} {} {} {}", prof, arm, block, thr.to_bits(), m, bits(&vals), w, l, join(syms.iter())));
+        // every third case: the sequence object has a configure history (its own random state: the
+        // rest of the stream is what it was before)
+        let hist = if n % 3 == 1 { gen_history(&mut hrng, m, w) } else { String::new() };
+        cases.push(format!("c02 {} {} {} {} {} {} {} {} {}{}", prof, arm, block, thr.to_bits(), m, bits(&vals), w, l, join(syms.iter()), hist));
     }
     cases
 }
@@ -237,6 +397,12 @@ pub fn run(cfg: &Cfg) {
         out.stat(&format!("block/{}", if BLOCKS.contains(&b) { t[3].to_string() } else { "other".into() }));
         if o.is_none() {
             out.stat("out-of-contract(wrap<M-1)");
+        }
+        if let Some(h) = c.split(" H ").nth(1) {
+            out.stat("history/any");
+            for x in h.split(' ') {
+                out.stat(&format!("history/{}", &x[..1]));
+            }
         }
         if ans == "panic" {
             out.panics += 1;
